@@ -175,6 +175,10 @@ func (state *RuntimeState) updateAuthJWTWithNewAuthLevel(intoken string, newAuth
 		err = errors.New("invalid JWT values")
 		return "", err
 	}
+	if parsedJWT.Expiration < time.Now().Unix() {
+		err = errors.New("expired JWT")
+		return "", err
+	}
 	parsedJWT.AuthType = newAuthLevel
 	return jwt.Signed(signer).Claims(parsedJWT).Serialize()
 }
